@@ -50,6 +50,8 @@ QUICK = [
     _k('periodic_plant', opt='periodic', kind='plant', T=4),
     _k('periodic_take', opt='periodic', kind='take', T=4),
     _k('coarse_take_contract', opt='coarse', kind='take', T=4),
+    _k('coarse_take_contract_last_interval_shorter', opt='coarse', kind='take', T=5),
+    _k('coarse_take_period_ends_inside_an_interval', opt='coarse', kind='take', T=4, take=(0, 3)),
     _k('periodic_contract_window', opt='periodic', kind='contract', T=6, win=(1, 5)),
     _k('periodic_multicommodity', opt='periodic', kind='multicommodity', T=4),
     _k('coarse_contract_dst_days_q', opt='coarse', kind='contract', T=4, coarse='2d', freq=('d', '2021-03-27', '2021-03-31', 'CET')),
@@ -90,7 +92,7 @@ def cases(tier, seed):
 
 
 # ------------------------------------------------------------------------------------------------ builders
-def mk_asset(D, kind, T, tg, nA, nB, opt_kw, ec=False, eff=None, win=None, costs=False):
+def mk_asset(D, kind, T, tg, nA, nB, opt_kw, ec=False, eff=None, win=None, costs=False, take=None):
     eao = lift.import_eao()
     if kind == 'contract':
         return shapes.mk_market(D, 'as', nA, T, 'r', ec=ec, win=win, tg=tg, **opt_kw)
@@ -106,7 +108,7 @@ def mk_asset(D, kind, T, tg, nA, nB, opt_kw, ec=False, eff=None, win=None, costs
                                                  extra_costs=D('as_ec', lo=0) if ec else 0., factors_commodities=[1.0, 0.5], start=s, end=e, **opt_kw)
     if kind == 'take':
         return eao.assets.Contract(name='as', nodes=nA, price='r', min_cap=D('as_min', hi=0), max_cap=D('as_max', lo=0),
-                                   max_take=shapes.mk_take(tg, 0, T, D('as_maxtake', lo=0)), **opt_kw)
+                                   max_take=shapes.mk_take(tg, take[0] if take else 0, take[1] if take else T, D('as_maxtake', lo=0)), **opt_kw)
     if kind == 'caps_ts':
         return eao.assets.SimpleContract(name='as', nodes=nA, price='r', min_cap='capmin', max_cap='capmax', **opt_kw)
     if kind == 'plant':
